@@ -249,7 +249,7 @@ def aud_witness(v: List[str], values: List[str]) -> bool:
 
 
 # ---------------------------------------------------------------- two claims: order / early return, unrequested claims ignored
-def two_claims(order: bool, a: Optional[str], b: Optional[str], ess_a: bool, val_a: Optional[str], ess_b: bool, val_b: Optional[str], has_extra: bool) -> bool:
+def two_claims(order: bool, a: Optional[str], b: Optional[str], ess_a: bool, val_a: Optional[str], ess_b: bool, val_b: Optional[str], has_extra: bool, warm: bool) -> bool:
     """
     pre: a is None or len(a) <= 1
     pre: b is None or len(b) <= 1
@@ -270,7 +270,14 @@ def two_claims(order: bool, a: Optional[str], b: Optional[str], ess_a: bool, val
             claims["zzz"] = ""
         claims["sub"] = a
     opts = {"sub": mkopt(ess_a, None, val_a, None), "jti": mkopt(ess_b, None, val_b, None)}
-    r = lib(JWTClaimsRegistry(now=0, leeway=0, **opts), claims)
+    reg = JWTClaimsRegistry(now=0, leeway=0, **opts)
+    if warm:
+        # a registry is built once and reused: an earlier validation (of a complete claims set) must not change the verdict
+        try:
+            reg.validate({"sub": val_a if val_a is not None else "x", "jti": val_b if val_b is not None else "y"})
+        except JoseError:
+            pass
+    r = lib(reg, claims)
     return agree(r, spec(0, 0, claims, opts))
 
 
